@@ -624,19 +624,85 @@ def check_cases(chk, S, fr, cases):
         shutil.rmtree(tmp, ignore_errors=True)
 
 
+ENGINE_TTL_SCENARIOS = ("seq-pass", "seq-task-wait", "seq-fail", "seq-retry-then-ok", "seq-catch", "seq-path-error", "seq-express",
+                        "par2-ok", "par2-fail0", "map3-mc1-ok", "map-empty", "nested-ok")
+
+
+def engine_ttl_stream(chk, fr):
+    """the engine-level half of the clause "execution records receive the configured time-to-live": the real engine over a
+    Redis-backed store (two instances, one fake server); after every step of every run each record `executions:<arn>` and
+    each history `execution_history:<arn>` that exists on the server carries exactly the configured execution_ttl, and no
+    state-machine definition (`asl_store:*`, which has to outlive restarts) carries any"""
+    import engine_props, explore
+    scns = [x for x in engine_props.corpus(chk.rng, True) if x.name in ENGINE_TTL_SCENARIOS]
+    n = 0
+    for scn in scns:
+        for ttl in (86400, 300):
+            for kind in ("canonical", "random"):
+                n += 1
+                url = "redis://c20-engine-%d:6379" % n
+                try:
+                    s, ea, pl = scn.start(instances=2, store_url=url, share_stores=False, execution_ttl=ttl)
+                except Exception as e:      # noqa  (a store that raises while the engine starts / the machine is stored)
+                    chk.report("impl-violates-law", {"kind": "engine-ttl", "scenario": scn.name, "execution_ttl": ttl},
+                               impl={"raised": "%s: %s" % (type(e).__name__, str(e)[:200])},
+                               law="engine-level TTL: the engine starts and a definition is stored over the Redis-backed stores")
+                    continue
+                srv = fr.SERVERS[url]
+                bad, seen = None, set()
+                while s.steps < 400 and bad is None:
+                    if kind == "canonical":
+                        st = s.canonical_step()
+                    else:
+                        en = explore.interesting(s) or ([] if s.quiescent() else explore.interesting(s, include_heartbeat=True))
+                        st = en[chk.rng.randrange(len(en))] if en else None
+                    if st is None or (explore.terminal_seen(s, ea) and s.quiescent()):
+                        break
+                    s.do(st)
+                    for k in list(srv.data):
+                        name = k.decode("utf8", "replace")
+                        t = srv.c_TTL(k)
+                        if name.startswith(("executions:", "execution_history:")):
+                            seen.add(name.split(":", 1)[0])
+                            if t != ttl:
+                                bad = ("a record the engine wrote has %s instead of the configured time-to-live" %
+                                       ("no time-to-live" if t == -1 else "the time-to-live %s" % t),
+                                       {"key": name, "ttl": t, "configured": ttl, "step": s.steps})
+                        elif name.startswith("asl_store:") and t != -1:
+                            bad = ("a state machine definition carries a time-to-live", {"key": name, "ttl": t, "step": s.steps})
+                fv = explore.final_view(s, ea)
+                case = {"kind": "engine-ttl", "scenario": scn.name, "execution_ttl": ttl, "schedule": [list(x) for x in s.trace],
+                        "machine": scn.machine, "input": scn.data, "sm_type": scn.sm_type}
+                chk.count(cj(["engine-ttl", scn.name, ttl, case["schedule"]]), True)
+                chk.dist("stream.engine_ttl")
+                chk.dist("engine_ttl.%s" % ("express" if scn.sm_type != "STANDARD" else "+".join(sorted(seen)) or "nothing-stored"))
+                if s.errors:
+                    chk.report("impl-violates-law", case, impl={"errors": s.errors[:1]}, law="no exception escapes a handler")
+                elif bad is not None:
+                    chk.report("impl-violates-law", case, impl=bad[1], law="engine-level TTL: " + bad[0])
+                elif scn.sm_type == "STANDARD" and seen != {"executions", "execution_history"}:
+                    chk.report("impl-violates-law", case, impl={"stored": sorted(seen), "final": fv},
+                               law="engine-level TTL: a STANDARD execution stores its record and its history on the server")
+                s.close()
+                fr.SERVERS.pop(url, None)
+    chk.cov["streams"]["engine_ttl_runs"] = n
+
+
 def run(chk):
     S, fr = impl()
     quick = chk.tier == "quick"
     chk.lean_stage()
     cases = gen_cases(chk, quick)
     check_cases(chk, S, fr, cases)
+    engine_ttl_stream(chk, fr)
     chk.assumptions += [
         "redis and pottery are not installed: RedisDictStore/RedisListStore run over harness/fakes (hashes, lists, scan paging, expire/ttl, "
         "connection pool ids, CLIENT TRACKING ON REDIRECT, one invalidation per tracked reader per modification, delivery scheduled by the harness); "
         "conclusions about Redis' own tracking semantics and the tracker thread rest on the fake",
         "JSON (de)serialisation of values (json.dump / pottery) is the identity on the generated values (integers, strings, null, booleans, arrays, objects)",
-        "the 'execution records receive the configured TTL' clause is covered at store level only (set_ttl applies the TTL to the key; a whole-key set drops it); "
-        "that the engine calls set_ttl for every record it creates is left to the engine-level checks (C04/C09)",
+        "the 'execution records receive the configured TTL' clause: at store level set_ttl applies the TTL to the key (a whole-key set drops it); at "
+        "engine level the real engine is run over the fake Redis server on scenarios of the shared corpus and every record / history key is "
+        "looked up on the server after every step (engine_ttl stream; theorem engine_written_record_keeps_ttl is the write pattern's model)",
     ]
     chk.cov["rule"] = ("operation schedules (set, nested update, get, cached get, delete, contains, iterate, len, append, set_ttl, ttl, reopen, "
                        "deliver one / deliver all) over a 5+6-key pool and small dict / list values x {SimpleStore, JSONStore (missing / garbage / "
@@ -651,6 +717,14 @@ def replay(chk, path):
     with open(path) as f:
         r = json.load(f)
     c = r["case"]
+    if c.get("kind") == "engine-ttl":
+        print("engine-level TTL case: scenario %s, execution_ttl %s; law: %s" % (c["scenario"], c["execution_ttl"], r.get("law")))
+        print("observed:", r.get("impl"))
+        print("re-running the engine_ttl stream:")
+        engine_ttl_stream(chk, fr)
+        for path_, tail in chk.violations:
+            print("  still violated:", path_)
+        return 0
     c.setdefault("stream", "replay")
     oq = open_quirks(chk)
     tmp = tempfile.mkdtemp(prefix="c20-")
